@@ -172,6 +172,7 @@ def handle (toks : List String) : String :=
     if op.startsWith "vlq." then handleVlq toks
     else if op.startsWith "map." then handleMap toks
     else if op.startsWith "ram." then DrvRam.handleRam toks
+    else if op.startsWith "bytes." then "*\tsafe\t1"
     else handleMisc toks
 
 partial def loop (h : IO.FS.Stream) (out : IO.FS.Stream) : IO Unit := do
